@@ -916,11 +916,13 @@ package tcell
 //@   calls [same-event] call("*selsend:EventQ()", sent) ==> sent == ev
 //@   modifies nothing
 
-// PollEvent returns exactly the event it received, or nil only because the screen stopped.
+// PollEvent returns exactly the event it received, or nil only because the screen stopped; it never gives up waiting
+// (the only non-blocking look is at the stop channel, first, so that a finished screen delivers nothing more).
 //@ func (*baseScreen).PollEvent
 //@   arith math
 //@   requires !isNil(b.screenImpl)
-//@   calls [blocks] call("*select:nonblocking", a) ==> false
+//@   calls [blocks] call("*select:nonblocking", a) ==> stepcalls("select:nonblocking:recv:StopQ()") == stepcalls("*select:nonblocking")
+//@   calls [stop-first] call("*selrecv:EventQ()", got) ==> stepcalls("select:nonblocking:recv:StopQ()") == 1
 //@   calls [returns-received] call("*selrecv:EventQ()", got) ==> result == got
 //@   calls [nil-on-stop] call("*selrecv:StopQ()", x) ==> isNil(result)
 //@   modifies nothing
